@@ -62,6 +62,11 @@ func checkNumericPredicate(c *fw.Ctx, fn *ssa.Function) {
 		c.Undecided(rule, what, "no visitor comparing gjson's Num with 9007199254740991 was recognised")
 		return
 	}
+	// a predicate that ends in `return raw != "-0"` returns a computed boolean: split such rows
+	// into their two outcomes before the polarity is read off
+	tbl.SplitBoolValues(func(atom string) bool {
+		return reRawEq.MatchString(atom) || reNumCmp.MatchString(atom) || reRawSearch.MatchString(atom)
+	})
 	// polarity: the outcome of the rows that require Num > 2^53-1
 	bad := ""
 	outcomes := map[string]bool{}
